@@ -197,7 +197,10 @@ inductive StepR
   /-- outside the specification: undefined flag read, immediate the encoder refuses, … -/
   | bad (why : String)
 
-def fitsI32 (i : Int) : Bool := decide (-2147483648 ≤ i) && decide (i < 2147483648)
+/- the upper bound comes first and as `≤`: for a symbolic non-negative `i` (a `Nat` cast) the evaluation of the first test is then
+   stuck at once; `i < 2^63` would make the kernel unfold `Nat.sub (i+1) 2^63` in unary when it re-checks a definitional step -/
+def fitsI32 (i : Int) : Bool := decide (i ≤ 2147483647) && decide (-2147483648 ≤ i)
+def fitsI64 (i : Int) : Bool := decide (i ≤ 9223372036854775807) && decide (-9223372036854775808 ≤ i)
 
 def effAddr (s : State) (m : Addr) : BitVec 64 :=
   (match m.base with | some b => s.get b | none => 0)
@@ -267,7 +270,7 @@ def step (s : State) : Instr → StepR
   | .movq_rr a b => .next (s.set a (s.get b))
   | .movl_rr a b => .next (s.set32 a (lo32 (s.get b)))
   | .movq_ri a i =>
-    if decide (-9223372036854775808 ≤ i) && decide (i < 9223372036854775808) then .next (s.set a (BitVec.ofInt 64 i))
+    if fitsI64 i then .next (s.set a (BitVec.ofInt 64 i))
     else .bad "immediate does not fit 64 bits"
   | .movl_ri a i => imm32 i fun _ => .next (s.set32 a (BitVec.ofInt 32 i))
   | .movsxlq_rr a b => .next (s.set a ((lo32 (s.get b)).signExtend 64))
